@@ -14,9 +14,15 @@ package cmd
 // flattened by reflection to a map path -> value.
 //
 // For every leaf of the example (and every environment variable) one variant
-// per value class changes ONLY that leaf; the recorder emits which flattened
-// paths changed.  TraceConfigFlow.tla judges each line against the documented
-// data-flow relation of ConfigFlow.tla.
+// per value class (distinctive value, smallest value, zero, flipped switch,
+// other enumeration value) changes ONLY that leaf; every list is shortened,
+// extended and reordered; every switch is put in its other position together
+// with each scalar of its object at a distinctive value (and a few pairs that
+// select a consumer: check.kv.type with the variables of that store, ...).  The
+// recorder emits which flattened paths differ from the run of the unchanged
+// example; paths a builder step that failed only in the variant would have
+// produced are "unobserved", never "changed".  TraceConfigFlow.tla judges each
+// line against the documented data-flow relation of ConfigFlow.tla.
 //
 // Abstraction functions: ext8CanonLeaf (YAML scalar -> canonical text),
 // ext8Flat.walk (internal value -> canonical text; durations as Go duration
@@ -102,7 +108,7 @@ const ext8Absent = "<absent>"
 // which the builder names the loggers (and so the instances) of its entities.
 type ext8LogHandler struct{ prefix string }
 
-func (h *ext8LogHandler) Enabled(context.Context, slog.Level) (ok bool)  { return false }
+func (h *ext8LogHandler) Enabled(context.Context, slog.Level) (ok bool)   { return false }
 func (h *ext8LogHandler) Handle(context.Context, slog.Record) (err error) { return nil }
 func (h *ext8LogHandler) WithGroup(string) (nh slog.Handler)              { return h }
 func (h *ext8LogHandler) WithAttrs(as []slog.Attr) (nh slog.Handler) {
@@ -899,35 +905,35 @@ func ext8Pattern(p string) (pat string) {
 // ext8KindOverride: leaves whose kind does not follow from the syntax of the
 // distributed value.
 var ext8KindOverride = map[string]string{
-	"network.so_sndbuf":                                     "size",
-	"network.so_rcvbuf":                                     "size",
-	"cache.type":                                            "enum",
-	"ratelimit.allowlist.type":                              "enum",
-	"check.kv.type":                                         "enum",
-	"server_groups[*].servers[*].protocol":                  "enum",
-	"ratelimit.ipv4.subnet_key_len":                         "len4",
-	"ratelimit.ipv6.subnet_key_len":                         "len6",
-	"server_groups[*].servers[*].dnscrypt.inline.es_version": "enum",
-	"web.static_content{*}.content":                         "b64",
+	"network.so_sndbuf":                    "size",
+	"network.so_rcvbuf":                    "size",
+	"cache.type":                           "enum",
+	"ratelimit.allowlist.type":             "enum",
+	"check.kv.type":                        "enum",
+	"server_groups[*].servers[*].protocol": "enum",
+	"ratelimit.ipv4.subnet_key_len":        "len4",
+	"ratelimit.ipv6.subnet_key_len":        "len6",
+	"server_groups[*].servers[*].dnscrypt.inline.es_version":    "enum",
+	"web.static_content{*}.content":                             "b64",
 	"server_groups[*].servers[*].dnscrypt.inline.provider_name": "str",
-	"web.error_404":                                         "file",
-	"web.error_500":                                         "file",
-	"web.adult_blocking.block_page":                         "path",
-	"web.general_blocking.block_page":                       "path",
-	"web.safe_browsing.block_page":                          "path",
-	"server_groups[*].servers[*].dnscrypt.config_path":      "dnscryptpath",
-	"server_groups[*].tls.session_keys[*]":                  "keypath",
-	"upstream.servers[*].address":                           "upstream",
-	"upstream.fallback.servers[*].address":                  "upstream",
-	"upstream.healthcheck.domain_template":                  "str",
-	"interface_listeners.list{*}.interface":                 "iface",
-	"server_groups[*].servers[*].bind_interfaces[*].id":     "ifaceid",
-	"server_groups[*].filtering_group":                      "ref",
-	"filtering_groups[*].rule_lists.ids[*]":                 "listid",
-	"access.blocked_question_domains[*]":                    "str",
-	"server_groups[*].tls.device_id_wildcards[*]":           "wildcard",
-	"ratelimit.allowlist.list[*]":                           "prefix",
-	"access.blocked_client_subnets[*]":                      "prefix",
+	"web.error_404":                                     "file",
+	"web.error_500":                                     "file",
+	"web.adult_blocking.block_page":                     "path",
+	"web.general_blocking.block_page":                   "path",
+	"web.safe_browsing.block_page":                      "path",
+	"server_groups[*].servers[*].dnscrypt.config_path":  "dnscryptpath",
+	"server_groups[*].tls.session_keys[*]":              "keypath",
+	"upstream.servers[*].address":                       "upstream",
+	"upstream.fallback.servers[*].address":              "upstream",
+	"upstream.healthcheck.domain_template":              "str",
+	"interface_listeners.list{*}.interface":             "iface",
+	"server_groups[*].servers[*].bind_interfaces[*].id": "ifaceid",
+	"server_groups[*].filtering_group":                  "ref",
+	"filtering_groups[*].rule_lists.ids[*]":             "listid",
+	"access.blocked_question_domains[*]":                "str",
+	"server_groups[*].tls.device_id_wildcards[*]":       "wildcard",
+	"ratelimit.allowlist.list[*]":                       "prefix",
+	"access.blocked_client_subnets[*]":                  "prefix",
 }
 
 func ext8Kind(pat string, v any) (k string) {
